@@ -406,9 +406,13 @@ func handedOutSigners(r *ev.Run) {
 			wg.Add(1)
 			go func(si int, sg ssh.Signer) {
 				defer wg.Done()
-				for k := 0; k < 3; k++ {
+				for k := 0; k < 4; k++ {
 					data := []byte(fmt.Sprintf("signer-%d-%d", si, k))
 					sig, err := sg.Sign(nil, data)
+					if as, ok := sg.(ssh.AlgorithmSigner); ok && k%2 == 1 {
+						// the way an SSH client signs: naming the key's algorithm
+						sig, err = as.SignWithAlgorithm(nil, data, sg.PublicKey().Type())
+					}
 					if err != nil || sg.PublicKey().Verify(data, sig) != nil {
 						note(fmt.Sprintf("signature through a handed-out signer: err=%v", err))
 						return
@@ -453,7 +457,7 @@ func handedOutSigners(r *ev.Run) {
 			r.Violation(c, "upstream-request-pipelined:handed-out-signers", fmt.Sprintf("%d requests reached the underlying agent while another exchange was pending on the same connection", n), nil)
 			return
 		}
-		r.Count("signatures through handed-out signers beside other clients (exchanges exclusive)", 6)
+		r.Count("signatures through handed-out signers beside other clients (exchanges exclusive)", 8)
 		r.Nontrivial("handed-out-signers")
 	})
 }
